@@ -68,6 +68,7 @@ def check(ctx):
     r6_inplace_returns(ctx)
     ctx.rule("C03-R7", "join / stack / slice / atom_slice on model trajectories: each array of the result equals the numpy concatenation / indexing of the operands' arrays, element for element")
     r7_values(ctx)
+    r7_traces(ctx)
     ctx.rule("C03-R5", "public analysis and save functions never store into their trajectory argument nor pass an alias of "
                        "its arrays to a parameter that a callee (Python, Cython or C via non-const pointer) writes")
     mod = ctx.py.mod(TRAJ)
@@ -629,3 +630,146 @@ def r7_values(ctx):
             pr.append("the topology is not replaced by its subset")
         return pr
     run("Trajectory.atom_slice", "atom_slice([2, 0], inplace=True): self updated, cached traces dropped, returns self", b_aslice_in, s_aslice_in)
+
+
+def r7_traces(ctx):
+    """The cached traces are the per-frame sums of squares of coordinates centred on the *geometric* centre (that is what rmsd(precentered=True)
+    takes them for).  center_coordinates and join are evaluated on model trajectories: whenever the result carries traces they must be those
+    sums for its own frames, in frame order, and the frames must be centred on the geometric centre."""
+    from ..tensym import TenSym, Ten, Obj, Unsupported as TUnsupported, ShapeError, run_paths
+    from ..poly import Poly, Rat
+    F_, A_ = 2, 3
+    zero = Rat(Poly.const(0))
+
+    def sym(n):
+        return Rat(Poly.var(n))
+
+    def build(name, F=F_, traces=None, top=None):
+        masses = [sym("m[%d]" % i) for i in range(A_)]
+        atoms = [Obj(index=i, element=Obj(mass=masses[i])) for i in range(A_)]
+        top = top or Obj(atoms=atoms, n_atoms=A_)
+        top.atom = lambda i: atoms[int(i)]
+        o = Obj(_xyz=Ten.sym(name + ".x", (F, A_, 3)), _topology=top, _time=Ten.sym(name + ".t", (F,)), _unitcell_lengths=Ten.sym(name + ".len", (F, 3)),
+                _unitcell_angles=Ten.sym(name + ".ang", (F, 3)), _rmsd_traces=traces, _isa=("Trajectory",), n_frames=F, n_atoms=A_, _have_unitcell=True)
+        o._getters = {"xyz": lambda s_: s_._xyz, "time": lambda s_: s_._time, "topology": lambda s_: s_._topology, "top": lambda s_: s_._topology,
+                      "unitcell_lengths": lambda s_: s_._unitcell_lengths, "unitcell_angles": lambda s_: s_._unitcell_angles}
+
+        def set_xyz(s_, v):
+            s_._xyz = v
+            s_._rmsd_traces = None
+        o._setters = {"xyz": set_xyz}
+        return o, masses
+
+    def center_model(ev, call):
+        x = ev.ex(call.args[0])
+        if not isinstance(x, Ten) or x.ndim != 3:
+            raise TUnsupported("_center_inplace_atom_major on %r" % (x,))
+        F, A, _ = x.shape
+        tr = []
+        for f in range(F):
+            mean = [sum((x.at([f, a, c]) for a in range(A)), zero) / A for c in range(3)]
+            tot = zero
+            for a in range(A):
+                for c in range(3):
+                    v = x.at([f, a, c]) - mean[c]
+                    ev.setitem(x, (f, a, c), v)
+                    tot = tot + v * v
+            tr.append(tot)
+        return Ten((F,), tr)
+    fn = ctx.py.func(TRAJ, "Trajectory.center_coordinates")
+    ctx.analysed_functions.add(TRAJ + ":Trajectory.center_coordinates")
+    com = ctx.py.func("mdtraj/geometry/distance.py", "compute_center_of_mass")
+    for mw in (False, True):
+        what = "center_coordinates(mass_weighted=%s): if traces are cached they are sum |r|^2 of frames centred on the geometric centre" % mw
+        me, masses = build("a")
+        x0 = Ten(me._xyz.shape, me._xyz.data)
+        ev = TenSym({}, models={"_rmsd._center_inplace_atom_major": center_model}, funcs={"distance.compute_center_of_mass": com, "compute_center_of_mass": com})
+        try:
+            got = ev.run_fn(fn, self=me, mass_weighted=mw)
+            pr = []
+            if got is not me:
+                pr.append("does not return self")
+            x = me._xyz
+            M = sum(masses, zero)
+            for f in range(F_):
+                for c in range(3):
+                    centre = (sum((masses[a] * x0.at([f, a, c]) for a in range(A_)), zero) / M) if mw else (sum((x0.at([f, a, c]) for a in range(A_)), zero) / A_)
+                    for a in range(A_):
+                        if not ev.equal(x.at([f, a, c]), x0.at([f, a, c]) - centre) and not pr:
+                            pr.append("coordinates are not r - %s centre (frame %d atom %d)" % ("mass" if mw else "geometric", f, a))
+            tr = me._rmsd_traces
+            if tr is not None:
+                for f in range(F_):
+                    s2 = sum((x.at([f, a, c]) * x.at([f, a, c]) for a in range(A_) for c in range(3)), zero)
+                    cen = [sum((x.at([f, a, c]) for a in range(A_)), zero) for c in range(3)]
+                    if not ev.equal(ev.to_ten(tr).at([f]), s2):
+                        pr.append("cached trace of frame %d is not the sum of squares of its coordinates" % f)
+                        break
+                    if any(not ev.equal(v, zero) for v in cen):
+                        pr.append("traces are cached although the frames are centred on the centre of mass, not on the geometric centre that rmsd(precentered=True) assumes")
+                        break
+            ctx.decide(not pr, "C03-R7", fn, TRAJ, "Trajectory.center_coordinates", what, "", "; ".join(pr))
+        except ShapeError as e:
+            ctx.violated("C03-R7", fn, TRAJ, "Trajectory.center_coordinates", what, "array operations do not fit: %s" % e)
+        except TUnsupported as e:
+            ctx.undecided("C03-R7", fn, TRAJ, "Trajectory.center_coordinates", what, "not evaluable: %s" % e)
+    # ---- join of pre-centred pieces, with and without discarding an overlapping frame
+    jf = ctx.py.func(TRAJ, "Trajectory.join")
+
+    def ctor(xyz, topology, time=None, unitcell_lengths=None, unitcell_angles=None, **extra):
+        o = Obj(_xyz=xyz, _topology=topology, _time=time, _unitcell_lengths=unitcell_lengths, _unitcell_angles=unitcell_angles, _rmsd_traces=None, _isa=("Trajectory",), _built=True)
+        o._getters = {"xyz": lambda s_: s_._xyz, "time": lambda s_: s_._time}
+        return o
+
+    def frames_of(t, pat):
+        import re as _re
+        out = []
+        t = t if isinstance(t, Ten) else None
+        if t is None:
+            return None
+        per = len(t.data) // t.shape[0] if t.shape[0] else 1
+        for f in range(t.shape[0]):
+            m = _re.match(pat, repr(t.data[f * per]))
+            out.append((m.group(1), int(m.group(2))) if m else None)
+        return out
+    for discard in (False, True):
+        what = "join(b, discard_overlapping_frames=%s) of pre-centred pieces: traces carried over belong to the frames of the result, in order" % discard
+
+        def make():
+            top = Obj(tag="top")
+            ts_ = []
+            for nm in ("a", "b"):
+                o, _ = build(nm, traces=Ten.sym(nm + ".tr", (F_,)), top=top)
+                o._ctor = ctor
+
+                def getitem(s_, key, nm=nm):
+                    ev_ = TenSym({})
+                    n = Obj(_xyz=ev_.getitem(s_._xyz, key), _time=ev_.getitem(s_._time, key), _unitcell_lengths=ev_.getitem(s_._unitcell_lengths, key), _unitcell_angles=ev_.getitem(s_._unitcell_angles, key),
+                            _rmsd_traces=ev_.getitem(s_._rmsd_traces, key) if s_._rmsd_traces is not None else None, _topology=s_._topology, _isa=("Trajectory",), n_atoms=A_, _have_unitcell=True)
+                    n._getters = s_._getters
+                    return n
+                o._getitem = getitem
+                ts_.append(o)
+
+            def deepcopy(ev_, call):
+                return Obj(tag=("copy", ev_.ex(call.args[0])))
+            ev_ = TenSym({}, models={"deepcopy": deepcopy, "copy.deepcopy": deepcopy})
+            return ev_, {"self": ts_[0], "other": ts_[1], "discard_overlapping_frames": discard}
+        try:
+            pr = []
+            for taken, ev_, got in run_paths(make, jf):
+                cond = " and ".join(("" if t else "not ") + "(" + c + ")" for c, t in taken)
+                if isinstance(got, Exception):
+                    raise got
+                fx = frames_of(got._xyz, r"^(\w+)\.x\[(\d+),")
+                tr = got._rmsd_traces
+                if tr is None:
+                    continue
+                ft = frames_of(ev_.to_ten(tr), r"^(\w+)\.tr\[(\d+)\]")
+                if fx != ft:
+                    pr.append("%sthe result has the frames %s but carries the traces of %s" % (("when " + cond + ": ") if cond else "", fx, ft))
+            ctx.decide(not pr, "C03-R7", jf, TRAJ, "Trajectory.join", what, "", "; ".join(pr)[:400])
+        except ShapeError as e:
+            ctx.violated("C03-R7", jf, TRAJ, "Trajectory.join", what, "array operations do not fit: %s" % e)
+        except TUnsupported as e:
+            ctx.undecided("C03-R7", jf, TRAJ, "Trajectory.join", what, "not evaluable: %s" % e)
